@@ -72,6 +72,8 @@ pub mod ops {
     pub const POLL_HOOK: u32 = 1 << 14;
     pub const EXTEND: u32 = 1 << 15;
     pub const DROP_ON_WAKE: u32 = 1 << 16;
+    /// `extend` with an iterator that yields nothing
+    pub const EXTEND_EMPTY: u32 = 1 << 17;
 }
 
 #[derive(Clone, Copy, PartialEq, Eq, Debug, Hash)]
@@ -114,7 +116,7 @@ pub struct Cfg {
     pub focus: Option<Vec<u32>>,
     /// self-waking children start dormant (see Op::Unleash)
     pub dormant: bool,
-    pub up_modes: [Mode; 2],
+    pub up_modes: [Mode; 3],
     /// polls performed right after construction, before the explored history starts
     pub pre_polls: usize,
     /// how many cloned wakers the environment may hold at once
@@ -127,6 +129,8 @@ pub struct Cfg {
     pub iter_panic_at: Option<usize>,
     /// drain like an executor: after a Pending on which the task waker was not invoked, nobody polls again
     pub executor_drain: bool,
+    /// PollHook is only offered for children with an id below this
+    pub hook_max: u32,
 }
 
 impl Cfg {
@@ -150,7 +154,8 @@ impl Cfg {
             horizon: 400,
             focus: None,
             dormant: false,
-            up_modes: [Mode::Gate, Mode::Ready],
+            up_modes: [Mode::Gate, Mode::Ready, Mode::Ready],
+            hook_max: u32::MAX,
             pre_polls: 0,
             pool_max: 2,
             focus_strict: false,
@@ -174,6 +179,8 @@ pub enum Op {
     PanicPush(usize, PushHow),
     /// `extend` with two futures of the given spec (ordered queues)
     Extend2(usize),
+    /// `extend` with an iterator that yields nothing
+    Extend0,
     Poll(bool),
     /// poll with a new task waker; the waker of the child is invoked while the collection clones
     /// (registers) that task waker
@@ -255,6 +262,7 @@ impl<'a> Run<'a> {
                 format!("panicking push{}({})", if *how == PushHow::Front { "_front" } else { "" }, self.cfg.specs[*i].render())
             }
             Op::Extend2(i) => format!("extend([{0}, {0}])", self.cfg.specs[*i].render()),
+            Op::Extend0 => "extend([])".to_string(),
             Op::Poll(new) => format!("poll({})", if *new { "new task waker" } else { "same task waker" }),
             o => format!("{:?}", o),
         }
@@ -293,9 +301,14 @@ impl<'a> Run<'a> {
                             Some(n) => n.saturating_sub(self.running(w)),
                             None => usize::MAX,
                         };
-                        if room >= 2 {
+                        // (after a destructor panic the crate's own count of free slots is no longer defined)
+                        if room >= 2 && (w.drop_panics == 0 || cfg.kind.bound().is_none()) {
                             m.push((Op::Extend2(0), costly(ops::EXTEND)));
                         }
+
+                    }
+                    if cfg.ops & ops::EXTEND_EMPTY != 0 && cfg.kind.is_ordered() && cfg.kind.is_collection() {
+                        m.push((Op::Extend0, costly(ops::EXTEND_EMPTY)));
                     }
                     if !full {
                         for i in 0..cfg.specs.len() {
@@ -349,7 +362,7 @@ impl<'a> Run<'a> {
                 let live = c.accepted && c.drops == 0 && !c.completed;
                 if alive && live && cfg.ops & ops::COMPLETE != 0 {
                     match c.mode {
-                        Mode::Gate | Mode::Relay | Mode::YieldInf | Mode::YieldGate if !c.released => {
+                        Mode::Gate | Mode::Relay | Mode::YieldInf | Mode::YieldGate | Mode::Ring if !c.released => {
                             m.push((Op::Complete(id), costly(ops::COMPLETE)))
                         }
                         Mode::Stream if !c.omega && c.last_answer == Ans::Pending && !c.fed => {
@@ -364,7 +377,7 @@ impl<'a> Run<'a> {
                         if cfg.ops & ops::WAKE != 0 {
                             m.push((Op::Wake(id), costly(ops::WAKE)));
                         }
-                        if alive && cfg.ops & ops::POLL_HOOK != 0 {
+                        if alive && cfg.ops & ops::POLL_HOOK != 0 && id < cfg.hook_max {
                             m.push((Op::PollHook(id), costly(ops::POLL_HOOK)));
                         }
                     } else if cfg.ops & ops::STALE_WAKE != 0 {
@@ -457,6 +470,9 @@ impl<'a> Run<'a> {
                     }
                 }
             }
+            Op::Extend0 => {
+                let _ = self.subj.as_mut().unwrap().extend(&[]);
+            }
             Op::Poll(new) => self.do_poll(*new),
             Op::PollHook(c) => {
                 let next = w(|w| w.next_task_waker + 1);
@@ -507,7 +523,7 @@ impl<'a> Run<'a> {
                     (0..w.children.len() as u32)
                         .filter(|&i| {
                             let c = &w.children[i as usize];
-                            c.accepted && c.drops == 0 && !c.completed && (c.mode == Mode::YieldInf || c.omega)
+                            c.accepted && c.drops == 0 && !c.completed && (c.mode == Mode::YieldInf || c.mode == Mode::Ring || c.omega)
                         })
                         .collect()
                 });
@@ -721,7 +737,7 @@ impl<'a> Run<'a> {
                 );
             }
             if w.spin_hit {
-                w.violate("C13", "poll-does-not-return", "a single poll kept polling a self-waking child more than 100000 times");
+                w.violate("C13", "poll-does-not-return", "a single poll call polled one and the same child more than 2000 times and was still going (children that keep each other or themselves woken)");
             } else if w.child_polls_in_call > 512 * (held + w.completed_in_call.len() as u64 + 1) {
                 let n = w.child_polls_in_call;
                 w.violate("C13", "unbounded-work-per-poll", format!("a single poll performed {} child polls with {} children held", n, held));
@@ -1253,7 +1269,7 @@ impl<'a> Run<'a> {
                 for _ in 0..bound {
                     let waiting = w(|w| {
                         w.children.iter().any(|c| {
-                            c.accepted && c.drops == 0 && !c.completed && c.victim_wake_cpoll.is_some() && c.mode != Mode::YieldInf && !c.omega
+                            c.accepted && c.drops == 0 && !c.completed && c.victim_wake_cpoll.is_some() && c.mode != Mode::YieldInf && c.mode != Mode::Ring && !c.omega
                         })
                     });
                     if !waiting || matches!(self.last_out_kind, 2 | 4 | 5 | 6 | 7) {
